@@ -78,6 +78,7 @@ pub fn ent_to_json(e: &EntSpec) -> serde_json::Value {
         "mtime": mt,
         "headers": e.headers.iter().map(|(k, v)| serde_json::json!([k, crate::report::bytes_json(v)])).collect::<Vec<_>>(),
         "scripts": e.scripts.iter().map(|s| s.to_json()).collect::<Vec<_>>(),
+        "add_headers_mode": e.hdr_mode,
     })
 }
 
@@ -118,6 +119,7 @@ pub fn ent_from_json(v: &serde_json::Value) -> EntSpec {
             .iter()
             .map(Script::from_json)
             .collect(),
+        hdr_mode: v["add_headers_mode"].as_u64().unwrap_or(0) as u8,
     }
 }
 
@@ -203,6 +205,13 @@ pub fn run_serve_with(req: &Req, ent: &EntSpec, extra_polls: usize, horizon: usi
         return None;
     }
     let request = build_request(req)?;
+    // the whole execution (serve() and draining the body) runs under the hang watchdog
+    let (rq, en) = (req.clone(), ent.clone());
+    let case: crate::report::CaseFn = Box::new(move || serde_json::json!({"engine": "serve_mc", "request": rq.to_json(), "entity": ent_to_json(&en), "extra_polls": extra_polls, "in_tokio_task": in_tokio}));
+    crate::report::watched(case, || run_serve_inner(request, ent, extra_polls, horizon, in_tokio))
+}
+
+fn run_serve_inner(request: http::Request<()>, ent: &EntSpec, extra_polls: usize, horizon: usize, in_tokio: bool) -> Option<ServeObs> {
     let (e, log) = ScriptEnt::new(ent.clone());
     let t0 = SystemTime::now();
     let r = catch_unwind(AssertUnwindSafe(|| http_serve::serve(e, &request)));
@@ -364,6 +373,28 @@ pub fn model(req: &Req, ent: &EntSpec) -> Model {
         if_modified_since: req.get("if-modified-since"),
         if_unmodified_since: req.get("if-unmodified-since"),
     });
+    // A tag list given as SEVERAL If-Match / If-None-Match lines: the statement does not say
+    // whether only the first line counts (what this crate does) or the lines form one list (what
+    // RFC 7230 s.3.2.2 says). Where both readings give the same verdict, that verdict is asserted.
+    let only_tag_lines_repeated = repeated && ["if-modified-since", "if-unmodified-since", "range", "if-range"].iter().all(|h| req.count(h) <= 1);
+    let (cond, repeated) = if only_tag_lines_repeated {
+        let join = |name: &str| -> Option<Vec<u8>> {
+            let lines: Vec<&[u8]> = req.headers.iter().filter(|(k, _)| k == name).map(|(_, v)| &v[..]).collect();
+            if lines.is_empty() { None } else { Some(lines.join(&b", "[..])) }
+        };
+        let (jm, jn) = (join("if-match"), join("if-none-match"));
+        let joined = cond::evaluate(&CondInput {
+            etag: ent.etag.as_deref(),
+            lm_sec: lm,
+            if_match: jm.as_deref(),
+            if_none_match: jn.as_deref(),
+            if_modified_since: req.get("if-modified-since"),
+            if_unmodified_since: req.get("if-unmodified-since"),
+        });
+        if joined == cond && cond != CondVerdict::Unconstrained { (cond, false) } else { (cond, true) }
+    } else {
+        (cond, repeated)
+    };
     // the statements about dates are made for times an HTTP-date can express; for a pre-epoch
     // modification time only totality (C13) is asserted when a date header takes part
     let cond = if pre_epoch(ent) && (req.get("if-modified-since").is_some() || req.get("if-unmodified-since").is_some()) {
